@@ -12,6 +12,13 @@ type nb struct {
 
 func (x *nb) lit(s string) { x.b = append(x.b, s...) }
 
+// ci appends s with every letter in a symbolic (arbitrary) letter case.
+func (x *nb) ci(s string) {
+	w := vBytes(len(s))
+	vAssume(refEqFold(w, s))
+	x.b = append(x.b, w...)
+}
+
 // lws appends one of: nothing, SP, HT, CRLF SP (a fold) - chosen symbolically.
 func (x *nb) lws() {
 	switch vChoice(4) {
@@ -111,7 +118,7 @@ func H_C09_shape(hh, via, shape, w int) {
 		x.lit(";")
 		x.lws()
 		ps = len(x.b)
-		x.lit("tag")
+		x.ci("tag")
 		x.lws()
 		x.lit("=")
 		x.lws()
@@ -131,7 +138,8 @@ func H_C09_shape(hh, via, shape, w int) {
 		x.lws()
 		x.lit(";")
 		x.lws()
-		x.lit("TaG=")
+		x.ci("tag")
+		x.lit("=")
 		ts, te = x.sym(2, 1)
 		pe = te
 		hasTag = true
@@ -140,7 +148,8 @@ func H_C09_shape(hh, via, shape, w int) {
 		us, ue = x.sym(w, 0)
 		x.lit(";")
 		ps = len(x.b)
-		x.lit("tag=")
+		x.ci("tag")
+		x.lit("=")
 		ts, te = x.sym(2, 1)
 		pe = te
 		hasTag = true
@@ -149,9 +158,12 @@ func H_C09_shape(hh, via, shape, w int) {
 		us, ue = x.sym(1, 0)
 		x.lit(">;")
 		ps = len(x.b)
-		x.lit("Expires=")
+		x.ci("expires")
+		x.lit("=")
 		ds, de = x.sym(w, 3)
-		x.lit(";q=0.")
+		x.lit(";")
+		x.ci("q")
+		x.lit("=0.")
 		qs, _ = x.sym(2, 3)
 		pe = len(x.b)
 		hasExp, hasQ = true, true
@@ -162,7 +174,7 @@ func H_C09_shape(hh, via, shape, w int) {
 		x.lws()
 		x.lit(";")
 		ps = len(x.b)
-		x.lit("lR")
+		x.ci("lr")
 		pe = len(x.b)
 		lr = true
 	case 6:
